@@ -34,6 +34,7 @@ class NF:
 
 
 ABSTRACT_FP = [False, 0]     # [enabled, counter]: float arithmetic results become fresh values (over-approximation)
+RECIPROCALS = [False]      # rewrite x / (k / d) to x * d / k (valid for d != 0)
 F32 = z3.FPSort(8, 24)
 F64 = z3.FPSort(11, 53)
 RNE = z3.RNE()
@@ -352,6 +353,11 @@ def div(a, b):
         la = z3.ToReal(la)
     if z3.is_int(lb):
         lb = z3.ToReal(lb)
+    if RECIPROCALS[0] and z3.is_app_of(lb, z3.Z3_OP_DIV) and z3.is_rational_value(lb.arg(0)) and lb.arg(0).as_fraction() != 0:
+        # x / (k / d) = x * d / k   (callers enabling this assume d != 0, e.g. conductances d > 0)
+        k = lb.arg(0).as_fraction()
+        r = la * lb.arg(1)
+        return z3.simplify(r if k == 1 else r / z3.RealVal(str(k)))
     return la / lb
 
 
